@@ -1,1 +1,152 @@
-From Verif Require Import Model.TryList Proofs.C17.
+(* C17 — Initial and fallback server choice follows forced hosts, then the try list.
+   Only statements and `exact`; the proofs are in Proofs/C17.v and Proofs/C17_main.v.
+   Model: Model/TryList.v (next = connectedPlayer.nextServerToTry, clean = getVirtualHostname,
+   candidates = forced[clean vhost] if non-empty else try, find_server = Proxy.Server).
+   Premise `consistent reg cands`: a listed name and a registered name that are equal up to case are
+   equal — true for loaded configurations (validation requires every listed name to be a key of
+   `servers`, the registry is filled from those keys); see C17_case_variant_outside_premise. *)
+From Coq Require Import List NArith Bool Arith.
+From Verif Require Import Base.Hex Base.Text Model.TryList Proofs.C17 Proofs.C17_main Proofs.C17_kick.
+Import ListNotations.
+Open Scope N_scope.
+
+(* "the next server chosen is the next listed server that is registered and is neither the server that
+   failed, the current server nor the in-flight one": the result sits at a position i >= cursor of
+   forced[clean vhost] (else try), is registered, is none of the three excluded servers, and every
+   listed entry between the cursor and i is unregistered or one of the excluded servers. *)
+Theorem C17_first_eligible : forall cfg vhost reg current in_flight failed c i s,
+  consistent reg (candidates cfg vhost) = true ->
+  next_server cfg vhost reg current in_flight failed c = Some (i, s) ->
+  (c <= i)%nat /\
+  nth_error (candidates cfg vhost) i = Some s /\
+  find_server reg s = Some s /\
+  current <> Some s /\ in_flight <> Some s /\ failed <> Some s /\
+  (forall j m t, (c <= j < i)%nat -> nth_error (candidates cfg vhost) j = Some m ->
+     find_server reg m = Some t ->
+     current = Some t \/ in_flight = Some t \/ failed = Some t).
+Proof. exact first_eligible_thm. Qed.
+Print Assumptions C17_first_eligible.
+
+(* "when none remains the player is disconnected": nil is returned exactly when no listed entry at or
+   after the cursor is eligible (handleConnectionErr2 turns nil into DisconnectPlayerKickResult with
+   the kick reason; that step is covered by the correspondence only). *)
+Theorem C17_none_iff : forall cfg vhost reg current in_flight failed c,
+  consistent reg (candidates cfg vhost) = true ->
+  (next_server cfg vhost reg current in_flight failed c = None <->
+   forall j m t, (c <= j)%nat -> nth_error (candidates cfg vhost) j = Some m ->
+     find_server reg m = Some t ->
+     current = Some t \/ in_flight = Some t \/ failed = Some t).
+Proof. exact none_iff_thm. Qed.
+Print Assumptions C17_none_iff.
+
+(* "A joining player is first sent to the first registered server listed for its virtual host, or to
+   the try list when none is configured". *)
+Theorem C17_initial_choice : forall cfg vhost reg i s,
+  consistent reg (candidates cfg vhost) = true ->
+  next_server cfg vhost reg None None None 0 = Some (i, s) ->
+  nth_error (match lookup_forced (clean vhost) (forced cfg) with [] => try_list cfg | l => l end) i = Some s /\
+  find_server reg s = Some s /\
+  (forall j m, (j < i)%nat ->
+     nth_error (match lookup_forced (clean vhost) (forced cfg) with [] => try_list cfg | l => l end) j = Some m ->
+     find_server reg m = None).
+Proof. exact initial_choice_thm. Qed.
+Print Assumptions C17_initial_choice.
+
+(* cursor: never moves backwards in nextServerToTry, reset by a successful connect *)
+Theorem C17_cursor_monotone : forall cfg vhost reg st failed,
+  (cursor st <= cursor (fst (next cfg vhost reg st failed)))%nat.
+Proof. exact cursor_monotone_thm. Qed.
+Print Assumptions C17_cursor_monotone.
+
+Theorem C17_cursor_reset : forall cfg vhost st s,
+  cursor (fst (step cfg vhost st (OConnected s))) = 0%nat /\
+  cursor (fst (step cfg vhost st OPromote)) = 0%nat.
+Proof. exact cursor_reset_thm. Qed.
+Print Assumptions C17_cursor_reset.
+
+(* sequences of failures: a server that was chosen and then fails is not chosen again; the next choice
+   lies strictly further down the list, so a run of failures ends in a disconnect after at most
+   length(list) redirects *)
+Theorem C17_failed_not_retried : forall cfg vhost reg reg' st st1 st2 failed0 i s j s',
+  wf_state cfg vhost st ->
+  consistent reg (candidates cfg vhost) = true ->
+  consistent reg' (candidates cfg vhost) = true ->
+  next cfg vhost reg st failed0 = (st1, Some (i, s)) ->
+  next cfg vhost reg' st1 (Some s) = (st2, Some (j, s')) ->
+  (i < j)%nat /\ s' <> s.
+Proof. exact failed_not_retried_thm. Qed.
+Print Assumptions C17_failed_not_retried.
+
+(* all histories (by induction over the operation list): every observation the model produces from
+   the initial state satisfies the per-step predicate the judge evaluates on the implementation's
+   observations (Check/C17.v: holds_history with first_eligible) *)
+Theorem C17_all_histories : forall cfg vhost ops,
+  consistent_ops (candidates cfg vhost) ops = true ->
+  holds_history (candidates cfg vhost) (mkS None None) 0 ops (run cfg vhost init_state ops) = true.
+Proof. exact history_thm. Qed.
+Print Assumptions C17_all_histories.
+
+(* kick result selection (handleConnectionErr2) after any history: when the player is kicked from its
+   current server (or has none) the KickedFromServerEvent carries a redirect to the first eligible
+   entry at or after the cursor, and a disconnect when there is none — the predicate the judge
+   evaluates on the observed event result (Check/C17.v: holds_kick). *)
+Theorem C17_kick_after_any_history : forall cfg vhost ops reg rs safe,
+  consistent reg (candidates cfg vhost) = true ->
+  holds_kick (candidates cfg vhost) (s_run (mkS None None) ops)
+             (last_cursor (run cfg vhost init_state ops)) reg rs safe
+             (snd (kick cfg vhost reg (run_state cfg vhost init_state ops) rs safe)) = true.
+Proof. exact history_then_kick_thm. Qed.
+Print Assumptions C17_kick_after_any_history.
+
+(* "host compared case-insensitively with port, Forge and TCPShield suffixes removed": for a plain host
+   name h (no NUL, '/', ':', '[', ']'; no dot at either end) followed by nothing, ":digits", a NUL tail
+   (Forge marker, forwarding data, the ":port" appended by the handshake handler) or a "///" tail
+   (TCPShield, possibly followed by all of the former), the lookup key is lower(h). *)
+Theorem C17_clean_removes_suffixes : forall h rest,
+  plain_host h = true -> removable_suffix rest = true -> clean (h ++ rest) = go_to_lower h.
+Proof. exact clean_removes_suffixes. Qed.
+Print Assumptions C17_clean_removes_suffixes.
+
+Theorem C17_clean_case_insensitive : forall h h' rest rest',
+  plain_host h = true -> plain_host h' = true ->
+  removable_suffix rest = true -> removable_suffix rest' = true ->
+  go_to_lower h = go_to_lower h' ->
+  clean (h ++ rest) = clean (h' ++ rest').
+Proof. exact clean_case_insensitive_thm. Qed.
+Print Assumptions C17_clean_case_insensitive.
+
+(* idempotence holds for ASCII hosts of that shape ... *)
+Theorem C17_clean_idempotent_ascii : forall h rest,
+  is_ascii h = true -> plain_host h = true -> removable_suffix rest = true ->
+  clean (clean (h ++ rest)) = clean (h ++ rest).
+Proof. exact clean_idempotent_ascii_thm. Qed.
+Print Assumptions C17_clean_idempotent_ascii.
+
+(* ... but not for every string: strings.Trim(".") runs before the port is split off, so
+   "a.:1" -> "a." -> "a" (a trailing dot in front of the port survives; not part of the property text) *)
+Theorem C17_clean_not_idempotent_in_general : exists s, clean (clean s) <> clean s.
+Proof. exact clean_not_idempotent_thm. Qed.
+Print Assumptions C17_clean_not_idempotent_in_general.
+
+(* premises are satisfiable / what lies outside them *)
+Example C17_nonvacuous_run :
+  let cfg := mkConfig [] [[97]; [98]; [99]] in
+  let reg := [[97]; [98]; [99]] in
+  consistent reg (candidates cfg []) = true /\
+  run cfg [] init_state
+    [ONext reg None; OConnected (Some [97]); ONext reg (Some [97]); ONext reg (Some [98]); ONext reg (Some [99])]
+  = [mkObs (Some [97]) 0; mkObs None 0; mkObs (Some [98]) 1; mkObs (Some [99]) 2; mkObs None 2].
+Proof. exact nonvacuous_run. Qed.
+
+Example C17_nonvacuous_clean :
+  let h := [80;108;97;121;46;69;120;97;109;112;108;101;46;99;111;109] in
+  plain_host h = true /\
+  clean (h ++ [0;70;77;76;0;58;50;53;53;54;53]) = [112;108;97;121;46;101;120;97;109;112;108;101;46;99;111;109].
+Proof. exact nonvacuous_clean. Qed.
+
+Example C17_case_variant_outside_premise :
+  let cfg := mkConfig [] [[76;111;98;98;121]] in
+  let reg := [[108;111;98;98;121]] in
+  consistent reg (candidates cfg []) = false /\
+  next_server cfg [] reg None None (Some [108;111;98;98;121]) 0 = Some (0%nat, [108;111;98;98;121]).
+Proof. exact case_variant_retried. Qed.
